@@ -148,11 +148,14 @@ Fixpoint insert_prio (x : network) (l : list network) : list network :=
   | y :: r => if nw_priority y <=? nw_priority x then x :: l else y :: insert_prio x r
   end.
 Definition sort_prio (l : list network) : list network := fold_right insert_prio [] l.
-(* network_by_value(field, value): exact match, and when nothing matches a retry with value.upper()
-   (the table columns are compared as parsed bytes here) *)
-Definition networks_by (field : network -> bytes) (v : bytes) : list network :=
+(* network_by_value(field, value): exact match, and when nothing matches a retry with value.upper().
+   For the address version columns the value is a hex string, whose case does not matter once parsed
+   (retry_upper = false); for prefix_bech32 it is the text of the human-readable part. *)
+Definition networks_by (retry_upper : bool) (field : network -> bytes) (v : bytes) : list network :=
   match filter (fun n => bytes_eqb (field n) v) all_networks with
-  | [] => sort_prio (filter (fun n => bytes_eqb (field n) (map upper_byte v)) all_networks)
+  | [] => if retry_upper
+          then sort_prio (filter (fun n => bytes_eqb (field n) (map upper_byte v)) all_networks)
+          else []
   | l => sort_prio l
   end.
 
@@ -186,8 +189,8 @@ Definition lib_deser_b58_gen (fold canon : bool) (enc_b58 : bool) (s : bytes) : 
       if negb ok && enc_b58 then BrChecksum
       else if ok && (negb canon || (Nat.eqb n 25 && bytes_eqb (b58_enc a) s)) then
         let pfx := firstn 1 key_hash in
-        let n_p2pkh := networks_by nw_prefix_address pfx in
-        let n_p2sh := networks_by nw_prefix_address_p2sh pfx in
+        let n_p2pkh := networks_by false nw_prefix_address pfx in
+        let n_p2sh := networks_by false nw_prefix_address_p2sh pfx in
         let '(sk, wk, nws) :=
           match n_p2pkh, n_p2sh with
           | _ :: _, [] => (SkP2pkh, WkLegacy, n_p2pkh)
